@@ -101,6 +101,17 @@ struct C12 : Prop {
 				J post = J::arr(); post.push("quiesce_noflush"); ph.set("post", post);
 				phs.push(ph);
 			}
+			// one round in sixteen starts with a burst of well-formed reports that nobody reads meanwhile (more than the queues hold)
+			if (r.chance(60)) {
+				J ph = J::obj(); J ev = J::arr(); int t0 = 0;
+				for (int k = 0, nb = (int) r.range(129, 200); k < nb; k++) {
+					ref::Msg m; m.addr = addrs[r.below(addrs.size())]; m.seq = 0; m.type = r.coin() ? MSG_SYS_PONG : MSG_SYS_ERROR; m.data = m.type == MSG_SYS_PONG ? std::vector<uint8_t>{(uint8_t) k} : std::vector<uint8_t>{0x01, (uint8_t) k};
+					J e = J::obj(); t0 += (int) r.range(0, 1500); e.set("at_us", t0); e.set("raw", hex_of(ref::frame_msgs({m}))); e.set("inj", "unread-burst"); ev.push(e);
+				}
+				ph.set("bus", ev); ph.set("adv", false);
+				J post = J::arr(); post.push("quiesce_noflush"); ph.set("post", post);
+				phs.push(ph);
+			}
 			J ph = J::obj(); J ev = J::arr();
 			int n = (int) r.range(1, thorough ? 25 : 12);
 			int t = 0;
